@@ -187,6 +187,21 @@ CLAIMS["C08"] = (
     "constructors are C17's subject; non-flat crowns C03's.",
     "DESIGN.md section 5 C08", TECH)
 
+CLAIMS["C19"] = (
+    "Proof (partial: compile / exec / ast.unparse are the interpreter's): C19_repr_is_one_token (lexing repr(s) ++ rest "
+    "gives back s and rest for EVERY string: no key can end or extend its own literal); C19_sanitize_identifier / "
+    "C19_prefixed_sanitize_identifier; C19_mangle_terminates_and_fresh; C19_loader/dumper_variable_names_never_collide "
+    "(prefix ++ field id differs from every word the generator writes, every keyword, builtin, path-suffixed variable and "
+    "other-prefix name, for every field id; prefixes and vocabulary regenerated from the generator sources); "
+    "C19_all_interp_sites_audited + C19_no_raw_site (the 116 interpolation / Template sites of the generators, regenerated "
+    "on every run, are exactly the reviewed ones and none is raw). Tied to the code by repr / lexer / sanitiser "
+    "correspondences and a hostile dictionary run through the library with a canary: field ids, mapped keys, model / "
+    "converter / stub / function names, stub defaults, parameter names, TypedDict keyword keys x load, dump, convert, errors.",
+    "Trusted: Coq kernel, the ast translator of sites and vocabulary, the recorded review of site classes, Python's lexer "
+    "as modelled by Repr.lex_string (compared with eval(repr(s))). Not covered: attribute names that are keywords, "
+    "TypedDict keys that are not identifiers (refused by the library with ValueError).",
+    "DESIGN.md section 5 C19", TECH)
+
 NOT_YET = "check not built yet in this session (DESIGN.md section 10 build order); not claimed until its model, theorems and correspondence exist"
 
 
